@@ -720,7 +720,8 @@ def factor_density_matrix(
     if validate:
         t1 = density_matrix_kronecker_product(extracted, remainder)
         product_axes = list(axes) + remaining_axes
-        t2 = transpose_density_matrix_to_axis_order(t1, product_axes)
+        # t1 has the axes in `product_axes` order: undo that permutation to compare with `t`.
+        t2 = transpose_density_matrix_to_axis_order(t1, [int(i) for i in np.argsort(product_axes)])
         if not np.allclose(t2, t, atol=atol):
             raise ValueError('The tensor cannot be factored by the requested axes')
     return extracted, remainder
